@@ -422,9 +422,9 @@ def rule_r4(ctx: Ctx) -> None:
 
 
 def run(ctx: Ctx) -> None:
-    rule_r1(ctx)
-    rule_r2(ctx)
-    rule_r3(ctx)
-    rule_r4(ctx)
+    ctx.attempt(rule_r1, ctx)
+    ctx.attempt(rule_r2, ctx)
+    ctx.attempt(rule_r3, ctx)
+    ctx.attempt(rule_r4, ctx)
     ctx.assume("major/minor versions are non-negative integers (C05.R3); the minors of a compared pair differ (asserted by the grouping)")
     ctx.analysed["modules"] = ["_namespace"]
